@@ -17,6 +17,7 @@ import re
 
 from vverif import lockstep as ls
 from vverif import httpref
+from vverif.lsutil import RetryWorld, written_out_samples
 from vverif.core import Result, Violation, HarnessError
 
 LEVEL = 'exploration'
@@ -115,7 +116,7 @@ def all_cases(quick):
 # ------------------------------------------------------------------ one execution
 
 def make_world(ctx, shard):
-    w = ls.World(ctx, 'w%d' % shard, ls.port_base_for_check(ctx.pid, shard))
+    w = RetryWorld(ctx, 'w%d' % shard, ls.port_base_for_check(ctx.pid, shard))
     w.own = None
     return w
 
@@ -216,7 +217,7 @@ def run_case(w, case):
                 got = [e.strip() for e in up.split(',')]
                 if got[-1] != full or [received_by(e) for e in got[:-1]] != [received_by(e) for e in els]:
                     oc += '(via-rewritten)'
-        return {'outcome': oc, 'violation': vio[1] if vio else None, 'key': vio[0] if vio else None, 'transcript': tr}
+        return {'outcome': oc, 'violation': vio[1] if vio else None, 'key': vio[0] if vio else None, 'transcript': tr, 'sent': req.encode('latin1')}
     # Max-Forwards
     mf = case['mf']
     vals = mf if isinstance(mf, list) else ([] if mf is None else [mf])
@@ -243,7 +244,7 @@ def run_case(w, case):
                        '%s with Max-Forwards: %s was forwarded with Max-Forwards %r instead of %d' % (method, mf, got, value - 1))
     if arrivals and method in ('TRACE', 'OPTIONS') and up_mf[0] and not all(re.match(r'^[0-9]+$', x) for x in up_mf[0]):
         oc += '(upstream-mf-malformed)'
-    return {'outcome': oc, 'violation': vio[1] if vio else None, 'key': vio[0] if vio else None, 'transcript': tr}
+    return {'outcome': oc, 'violation': vio[1] if vio else None, 'key': vio[0] if vio else None, 'transcript': tr, 'sent': req.encode('latin1')}
 
 
 _last_key = {}
@@ -279,7 +280,7 @@ def run(ctx):
     fwd = sum(v for k, v in oc.items() if k.endswith(':forwarded') or ':forwarded(' in k)
     local = sum(v for k, v in oc.items() if k.startswith('mf:') and ':local-' in k)
     flagged = sum(v for k, v in oc.items() if 'FORWARDED' in k)
-    if not r['deadline_hit']:
+    if not r['deadline_hit'] and not r['violations']:
         if blocked < 5 or fwd < 20 or local < 4:
             raise HarnessError('vacuity guard: blocked=%d forwarded=%d answered-locally=%d: %r' % (blocked, fwd, local, oc))
         if not any(k.startswith('mf:TRACE:positive:forwarded') for k in oc) or not any(k.startswith('mf:OPTIONS:positive:forwarded') for k in oc):
@@ -295,7 +296,22 @@ def run(ctx):
         vio.append(Violation(k, what, {'case': c}))
     obs = ['squid problem during %s: %s' % (k, what[:300]) for k, what, c in r['crashes']]
     vio += [Violation('crash:' + k, 'squid crashed/asserted during case %r: %s' % (c, what), {'case': c}) for k, what, c in r['crashes']]
-    cov = {'evaluations': r['evaluations'], 'distinct_nontrivial': blocked + fwd + local + flagged, 'rule': RULE, 'samples': r['samples'],
+    def pick(**kw):
+        for c in cases:
+            if all(c.get(k) == v for k, v in kw.items()):
+                return c
+    picked = [c for c in (pick(kind='via', form='no-comment', len=3, pos=1, syntax='comma-sp'), pick(kind='via', form='upper', len=2, pos=1, syntax='fields'),
+                          pick(kind='via', form='near:suffix-label', len=1), pick(kind='via', form='none', len=3),
+                          pick(kind='mf', method='TRACE', mf='0'), pick(kind='mf', method='TRACE', mf='2'),
+                          pick(kind='mf', method='OPTIONS', mf=str(2 ** 63)), pick(kind='mf', method='OPTIONS', mf='00')) if c]
+
+    def describe(c, rr):
+        o, cl = (rr['transcript'].split(b'\nC:', 1) + [b''])[:2]
+        hdrs = [l.decode('latin1') for l in o.split(b'\r\n') if l.lower().startswith((b'via:', b'max-forwards:'))]
+        sent = [l.decode('latin1') for l in rr.get('sent', b'').split(b'\r\n') if l.lower().startswith((b'via:', b'max-forwards:'))]
+        return {'client_sent': sent, 'origin_saw': hdrs if len(o) > 2 else 'nothing', 'client_got': repr(cl[:24])}
+    samples = written_out_samples(ctx, make_world(ctx, 0), run_case, picked, describe) or r['samples']
+    cov = {'evaluations': r['evaluations'], 'distinct_nontrivial': blocked + fwd + local + flagged, 'rule': RULE, 'samples': samples,
            'outcome_classes': oc, 'exhaustive': not r['deadline_hit'] and r['evaluations'] == len(cases), 'kicks': r['kicks'],
            'determinism_replays': r['replays'], 'cases_total': len(cases)}
     return Result(LEVEL, cov, vio, ASSUME, obs)
